@@ -16,6 +16,8 @@ pub enum V {
     Neg(u32),
     /// mantissa / 8 (exactly representable, printed with a decimal point)
     Flt(i32),
+    /// +-10^exp as a float literal `1.0e<exp>` (integral floats beyond the i64 range included)
+    BigFlt(bool, u8),
     Str(String),
     Bool(bool),
     None,
@@ -49,6 +51,7 @@ fn erg(v: &V, names: &[String]) -> String {
         V::Flt(m) => {
             if *m < 0 { format!("-{}", flt_text(-*m)) } else { flt_text(*m) }
         }
+        V::BigFlt(neg, e) => format!("{}1.0e{}", if *neg { "-" } else { "" }, e % 23),
         V::Str(s) => erg_str_lit(s),
         V::Bool(b) => if *b { "True".into() } else { "False".into() },
         V::None => "None".into(),
@@ -72,6 +75,7 @@ fn model(v: &V, earlier: &[Value]) -> Value {
         V::Nat(n) => json!(n),
         V::Neg(n) => json!(-(*n as i64 + 1)),
         V::Flt(m) => json!(*m as f64 / 8.0),
+        V::BigFlt(neg, e) => json!(format!("{}1.0e{}", if *neg { "-" } else { "" }, e % 23).parse::<f64>().unwrap()),
         V::Str(s) => {
             // `\t` in an Erg string literal denotes four spaces
             json!(s.replace('\t', "    "))
@@ -105,11 +109,13 @@ fn scalar() -> BoxedStrategy<V> {
         3 => "[ -~]{0,8}",
         2 => "[a-z\"\\\\/{}'\n\t]{0,6}",
         1 => "[é日本😀ß\u{7f}]{0,3}",
+        1 => "[a-c\u{1}-\u{8}\u{b}\u{c}\u{e}-\u{1f}]{1,4}",
     ];
     prop_oneof![
         3 => prop_oneof![0u64..100, Just(2147483648u64), Just(4294967296u64), Just(u64::MAX), any::<u32>().prop_map(|x| x as u64)].prop_map(V::Nat),
         2 => (0u32..2147483647).prop_map(V::Neg),
         2 => (-4000i32..4000).prop_map(V::Flt),
+        1 => (any::<bool>(), 0u8..23).prop_map(|(n, e)| V::BigFlt(n, e)),
         4 => s.prop_map(V::Str),
         2 => any::<bool>().prop_map(V::Bool),
         1 => Just(V::None),
@@ -159,7 +165,7 @@ fn build(case: &Case) -> (String, Value, usize) {
         let name = format!("k{i}");
         src.push_str(&format!(".{name} = {}\n", erg(&v, &names)));
         let m = model(&v, &vals);
-        if !matches!(v, V::Nat(_) | V::Neg(_) | V::Flt(_)) {
+        if !matches!(v, V::Nat(_) | V::Neg(_) | V::Flt(_) | V::BigFlt(..)) {
             interesting += 1;
         }
         expect.insert(name.clone(), m.clone());
